@@ -247,7 +247,12 @@ func encodeXmlChildren(enc *xml.Encoder, sn schema.Node, n datanode.DataNode) {
 			encodeXmlChildren(enc, csn, cn)
 
 		case schema.Leaf, schema.LeafList:
-			for _, v := range cn.YangDataValues() {
+			vals := cn.YangDataValues()
+			if _, ok := csn.(schema.Leaf); ok && len(vals) == 0 {
+				// A leaf of type empty need not carry a value
+				vals = []string{""}
+			}
+			for _, v := range vals {
 				nsprefixes := namespacePrefixes(csn, v)
 				enc.EncodeToken(xml.StartElement{Name: c_name, Attr: nsprefixes})
 				enc.EncodeToken(xml.CharData([]byte(v)))
